@@ -59,6 +59,7 @@ func propC18scc(a *Analysis, r *Registry, b *B) {
 		ifs, sts := collect(fc)
 		oifs, osts := collect(ofc)
 		where := b.pos(fn)
+		pinnedShape := false // the pop-from-the-top shape of the pinned tree (set below)
 
 		// --- flags: SCCEdges implies SCCSubnodeComponent, and every later test reads the flags so completed
 		edgesBit, compBit := int64(2), int64(1)
@@ -178,6 +179,79 @@ func propC18scc(a *Analysis, r *Registry, b *B) {
 			}
 		}()
 
+		// the node is pushed on entry
+		pushed := false
+		for _, s := range sts {
+			if s.st.Block() == fn.Blocks[0] && strings.HasPrefix(s.addr.String(), "fvptr:") && strings.HasPrefix(s.val.String(), "builtin:append(fv:") {
+				pushed = true
+			}
+		}
+		if pushed {
+			r.OK(rB, name+"/connect/push", where, "the node is pushed on the stack on entry")
+		} else {
+			r.Fail(rB, name+"/connect/push", where, "the node is not pushed on the stack on entry")
+		}
+		// what exists only under a flag is written only under that flag: subnodeComponent under
+		// SCCSubnodeComponent, out and outIndexes under SCCEdges (in connect and in the driver)
+		nGuarded := map[string]int{}
+		defer func() {
+			// each of them is written at all: in connect and in the driver (make / final sentinel)
+			for _, set := range [][]stRec{sts, osts} {
+				for _, s := range set {
+					// (the start index of every component in connect, the final sentinel in the driver)
+					if strings.Contains(s.val.String(), "builtin:append(fld:SCCGraph.subnodeIndexes(") || strings.HasPrefix(s.addr.String(), "&fld:SCCGraph.1(") {
+						nGuarded["subnodeIndexes"]++
+					}
+				}
+			}
+			for what, floor := range map[string]int{"subnodeComponent": 2, "out": 2, "outIndexes": 2, "subnodeIndexes": 2} {
+				if nGuarded[what] >= floor {
+					r.OK(rB, name+"/flag-guards/"+what+"/present", where, fmt.Sprintf("%d writes under the flag", nGuarded[what]))
+				} else if pinnedShape {
+					r.Fail(rB, name+"/flag-guards/"+what+"/present", where, fmt.Sprintf("expected at least %d writes of sccs.%s under its flag (in connect and in the driver), found %d", floor, what, nGuarded[what]))
+				}
+			}
+		}()
+		for _, set := range []struct {
+			fc  *FC
+			sts []stRec
+		}{{fc, sts}, {ofc, osts}} {
+			for _, s := range set.sts {
+				as := s.addr.String()
+				need, what := int64(0), ""
+				switch {
+				case strings.HasPrefix(as, "&fld:SCCGraph.2(") || strings.HasPrefix(as, "&idx(fld:SCCGraph.subnodeComponent("):
+					need, what = compBit, "subnodeComponent"
+				case strings.HasPrefix(as, "&fld:SCCGraph.3(") || strings.HasPrefix(as, "&idx(fld:SCCGraph.out("):
+					need, what = edgesBit, "out"
+				case strings.HasPrefix(as, "&fld:SCCGraph.4("):
+					need, what = edgesBit, "outIndexes"
+				}
+				if need == 0 {
+					continue
+				}
+				ok := false
+				for _, alt := range bit(eff, need) {
+					if set.fc.HoldsAt(s.st.Block(), alt) {
+						ok = true
+					}
+				}
+				if need == compBit {
+					// (SCCEdges implies SCCSubnodeComponent)
+					for _, alt := range bit(eff, edgesBit) {
+						if set.fc.HoldsAt(s.st.Block(), alt) {
+							ok = true
+						}
+					}
+				}
+				nGuarded[what]++
+				if ok {
+					r.OK(rB, fmt.Sprintf("%s/flag-guards/%s#%d", name, what, nGuarded[what]), a.W.InstrPos(s.st), "written only under its flag")
+				} else {
+					r.Fail(rB, name+"/flag-guards/"+what, a.W.InstrPos(s.st), "sccs."+what+" is written without its flag being known set (it exists only under that flag)")
+				}
+			}
+		}
 		// --- successor loop: every successor, min = least low seen
 		var oid, minV *RF
 		for _, f := range ifs {
@@ -277,6 +351,7 @@ func propC18scc(a *Analysis, r *Registry, b *B) {
 		if !pinnedPop {
 			pi = nil
 		}
+		pinnedShape = pinnedPop
 		if pi == nil {
 			// the component is marked by another kind of loop (e.g. forward over stack[base:] after
 			// the root's position was searched): the clauses below are stated on the pop-from-the-top
@@ -313,9 +388,10 @@ func propC18scc(a *Analysis, r *Registry, b *B) {
 				if ba := at.Args[0].SingleAtom(); ba != nil && ba.Name == "fld:SCCGraph.subnodeComponent" && at.Args[1].Equal(S.MakeFn("idx", stackV, popI)) {
 					sccsP = ba.Args[0].String()
 					if s.val.Equal(S.MakeFn("len", S.MakeFn("fld:SCCGraph.subnodeIndexes", ba.Args[0]))) {
-						when := fc.ReachCondFrom(loopBodyEntry(fc, s.st.Block()), s.st.Block())
-						if isBit(when, eff, compBit) {
-							cidOK = true
+						for _, alt := range bit(eff, compBit) {
+							if fc.HoldsAt(s.st.Block(), alt) {
+								cidOK = true
+							}
 						}
 					}
 				}
@@ -344,9 +420,11 @@ func propC18scc(a *Analysis, r *Registry, b *B) {
 		} {
 			if c.ok {
 				r.OK(rB, name+"/connect/pop/"+c.tag, where, c.msg)
+			} else if pinnedPop {
+				// (with the pop-from-the-top loop present, its companions must be there too; in any
+				// other shape these clauses are not stated)
+				r.Fail(rB, name+"/connect/pop/"+c.tag, where, "not found: "+c.msg)
 			}
-			// (not found: the component is recorded in another shape — these clauses are stated
-			// on the pinned one only)
 		}
 		// index values recorded in subnodeIndexes: len(subnodes) at that moment
 		for _, s := range sts {
@@ -458,6 +536,16 @@ func propC18scc(a *Analysis, r *Registry, b *B) {
 			} else {
 				r.Fail(rB, name+"/connect/collect/moves", where, "collected edges are not appended by cid and removed from the out-edge stack (out = out[:i+1])")
 			}
+		} else if pinnedPop {
+			anyTest := false
+			for _, f := range ifs {
+				if len(FindFn(f.c, "fld:outEdge.stackLen")) > 0 {
+					anyTest = true
+				}
+			}
+			if !anyTest {
+				r.Fail(rB, name+"/connect/collect", where, "no collection loop over the out-edge stack (no test of an out-edge's stackLen against the stack height)")
+			}
 		}
 		// dedup: keep out[j] when it is the first or differs from the last kept
 		var di, dj, outS *RF
@@ -488,6 +576,17 @@ func propC18scc(a *Analysis, r *Registry, b *B) {
 						b.EqRF(rB, name+"/connect/dedup/while", a.W.InstrPos(s.st), guard, S.Cmp("<", dj, S.MakeFn("len", outS)), "every collected id is read")
 					}
 				}
+			}
+		}
+		if di == nil && pinnedPop {
+			anyStore := false
+			for _, s := range sts {
+				if as := s.addr.String(); strings.HasPrefix(as, "&idx(") && strings.Contains(as, "fld:SCCGraph.out(") {
+					anyStore = true
+				}
+			}
+			if !anyStore {
+				r.Fail(rB, name+"/connect/dedup", where, "no compaction of the component's out-edge ids (no store into an element of sccs.out)")
 			}
 		}
 		if di != nil {
@@ -600,7 +699,7 @@ func fprintfArgs(fc *FC, c *ssa.Call) (string, []ssa.Value) {
 	return format, out
 }
 
-// propC18dot: Dot.Fprint names every node and every edge once — the node line is written for
+// propC18dot (and Sprint = Fprint into a builder): Dot.Fprint names every node and every edge once — the node line is written for
 // i = 0 … NumNodes()-1, the edge line for every position of g.Out(i) with that node and that
 // target; a write error (and nothing else) ends the output early; the default label is used
 // exactly when none is configured.
@@ -613,6 +712,17 @@ func propC18dot(a *Analysis, r *Registry, b *B) {
 		return
 	}
 	name := "graph/graphout.(Dot).Fprint"
+	if sp := b.Fn(rB, "graph/graphout.(Dot).Sprint"); sp != nil {
+		b.guard(rB, "graph/graphout.(Dot).Sprint", func() {
+			sfc := X.FCFor(sp)
+			calls := sfc.CallsTo("graph/graphout.(Dot).Fprint")
+			if len(calls) == 1 && sfc.ReachCond(calls[0].Block()).Equal(S.True()) && sfc.Val(calls[0].Call.Args[0]).Equal(X.ParamRF(sp, 0)) && sfc.Val(calls[0].Call.Args[2]).Equal(X.ParamRF(sp, 1)) {
+				r.OK(rB, "graph/graphout.(Dot).Sprint", b.pos(sp), "Sprint is d.Fprint(g) into a buffer")
+			} else {
+				r.Fail(rB, "graph/graphout.(Dot).Sprint", b.pos(sp), "Sprint does not call d.Fprint on the same d and g unconditionally")
+			}
+		})
+	}
 	b.guard(rB, name, func() {
 		fc := X.FCFor(fn)
 		g := X.ParamRF(fn, 2)
@@ -730,6 +840,18 @@ func propC18dot(a *Analysis, r *Registry, b *B) {
 				r.Fail("C-guard nil", name+"/"+strings.TrimPrefix(ca.Name, "fld:Dot."), a.W.InstrPos(c), "the optional callback "+ca.Name+" is called without being known non-nil")
 			}
 		})
+		// the output is closed: a final write of "}" on the way out
+		closed := false
+		for _, c := range fc.CallsTo("fmt.Fprintf") {
+			if format, _ := fprintfArgs(fc, c); strings.HasPrefix(format, "}") && fc.Ctx.LoopOf(c.Block()) == nil {
+				closed = true
+			}
+		}
+		if closed {
+			r.OK(rB, name+"/closes", b.pos(fn), "the closing brace is written after the last node")
+		} else {
+			r.Fail(rB, name+"/closes", b.pos(fn), "no final write of the closing brace")
+		}
 		// early returns: exactly on a write error
 		nRet, bad := 0, ""
 		fc.Ctx.Instrs(func(in ssa.Instruction) {
